@@ -81,6 +81,20 @@ def lake_build(targets, timeout=1800):
     return out
 
 
+def write_root_module():
+    """lean/CdsVerif.lean imports every module so that `lake build CdsVerif` checks all proofs."""
+    mods = []
+    for d, _, fs in os.walk(os.path.join(LEAN, "CdsVerif")):
+        for f in fs:
+            if f.endswith(".lean"):
+                rel = os.path.relpath(os.path.join(d, f), LEAN)[:-5]
+                mods.append(rel.replace(os.sep, "."))
+    text = "-- root of the library: every module, so that `lake build CdsVerif` checks all proofs\n" + "".join("import %s\n" % m for m in sorted(mods))
+    path = os.path.join(LEAN, "CdsVerif.lean")
+    if not os.path.exists(path) or open(path).read() != text:
+        open(path, "w").write(text)
+
+
 def prop_theorems(prop_module_file):
     """Fully qualified names of all theorems declared in a Props file."""
     src = open(prop_module_file).read()
